@@ -39,5 +39,21 @@ WeightOK == (Rec.op = "weight" /\ Done) => Rec.w = Weight(Dec(Rec.p)) /\ Rec.N =
 Drift_ListRepr == (Rec.op = "listrepr" /\ Done) =>
     /\ Len(Rec.lines) = Len(Rec.ops)
     /\ \A j \in 1..Len(Rec.ops) : Rec.lines[j] = Print(Dec(Rec.ops[j]))
+\* printing of Clifford maps (N <= 10: one line "X<i>-><image>" / "Z<i>-><image>" per generator, qubits counted from 0)
+\* and of stabilizer states (the active stabilizers, one per line) -- model drift, never a verdict
+Digit(d) == CASE d = 0 -> "0" [] d = 1 -> "1" [] d = 2 -> "2" [] d = 3 -> "3" [] d = 4 -> "4" [] d = 5 -> "5"
+              [] d = 6 -> "6" [] d = 7 -> "7" [] d = 8 -> "8" [] OTHER -> "9"
+Drift_MapRepr == (Rec.op = "maprepr" /\ Done) =>
+    /\ Rec.head = "CliffordMap(" /\ Rec.tail = ")"
+    /\ Len(Rec.lines) = Len(Rec.m)
+    /\ \A j \in 1..Len(Rec.m) :
+          /\ Rec.lines[j].pre = "  " \o (IF j % 2 = 1 THEN "X" ELSE "Z") \o Digit((j - 1) \div 2)
+          /\ Rec.lines[j].toks = Print(Dec(Rec.m[j]))
+Drift_StateRepr == (Rec.op = "staterepr" /\ Done) =>
+    LET n == Len(Rec.pre.rows) \div 2  k == n - Rec.pre.r IN
+    IF k = 0 THEN Rec.text = "StabilizerState()"
+    ELSE /\ Rec.head = "StabilizerState(" /\ Rec.tail = ")"
+         /\ Len(Rec.lines) = k
+         /\ \A j \in 1..k : Rec.lines[j].pre = "  " /\ Rec.lines[j].toks = Print(Dec(Rec.pre.rows[Rec.pre.r + j]))
 NoCrash20 == ~Has("exc")
 =============================================================================
